@@ -89,24 +89,23 @@ Definition succ_c (s : schema) (cc : ccas) (i : xid) : res (list xid) :=
             end) (ti_feats ti) (Ok [])
       end
   end.
-Fixpoint reach_c (fuel : nat) (s : schema) (cc : ccas) (visited open : list xid) : res (list xid) :=
+(* the open list up to the first id that is neither visited nor 0 *)
+Fixpoint skip_seen (visited open : list xid) : list xid :=
   match open with
+  | [] => []
+  | i :: rest => if zmem i visited || Z.eqb i 0 then skip_seen visited rest else open
+  end.
+(* fuel is consumed by visits only: every structure is visited at most once (ConvertReach.reach_c_total) *)
+Fixpoint reach_c (fuel : nat) (s : schema) (cc : ccas) (visited open : list xid) : res (list xid) :=
+  match skip_seen visited open with
   | [] => Ok visited
   | i :: rest =>
     match fuel with
     | O => OutOfFuel
-    | S k =>
-      if zmem i visited || Z.eqb i 0 then reach_c k s cc visited rest
-      else do l <- succ_c s cc i ;; reach_c k s cc (visited ++ [i]) (rest ++ l)
+    | S k => do l <- succ_c s cc i ;; reach_c k s cc (visited ++ [i]) (rest ++ l)
     end
   end.
-(* every structure is visited once; every visit pushes at most the references the content holds *)
-Definition reach_fuel (cc : ccas) : nat :=
-  S (fold_right (fun p a => (2 + List.length (cf_feats (snd p))
-                             + fold_right (fun nv b => (match snd nv with CColl _ l => List.length l | _ => 0%nat end + b)%nat) 0%nat (cf_feats (snd p))
-                             + a)%nat) 0%nat (cc_fs cc)
-     * S (List.length (cc_fs cc))
-     + fold_right (fun cs a => (List.length (cs_members cs) + 1 + a)%nat) 0%nat (cc_sofas cc)).
+Definition reach_fuel (cc : ccas) : nat := S (List.length (cc_fs cc)).
 
 Definition inline_of (s : schema) (cc : ccas) : res ccas :=
   let seeds := flat_map cs_members (cc_sofas cc) ++ flat_map (fun cs => match cs_arr cs with Some a => [a] | None => [] end) (cc_sofas cc) in
